@@ -53,6 +53,7 @@ type interp struct {
 	curInstr   ssa.Instruction
 	curFr      *frame
 	tickers    []*channel
+	promNames  map[string]string
 	bigTaken   [][]value
 	lazyCells  []*value
 }
@@ -408,6 +409,9 @@ func (in *interp) callOpaque(m *opaqueMethod, args []value) value {
 	switch m.name {
 	case "Error", "String":
 		return "opaque:" + m.o.name
+	case "MustRegister":
+		in.promRegister(args[1:])
+		return nil
 	case "Unwrap", "Cause":
 		if m.o.cause != nil {
 			return m.o.cause
